@@ -184,14 +184,54 @@ struct Watch {
 static const int STUCK_S = 5;
 
 // next non-empty receive() result (an empty result is the library's "no message" value)
-static bool next_msg(WebSocket& ws, std::string& out, int& empties, std::string& why, Watch* w = 0, int me = 0)
+// How an endpoint waits for its next message (all are documented ways of using the class):
+//   0  if (closed()) stop; wait(long); receive()                         (the documentation's serve() loop)
+//   1  while (!closed()) { if (!hasInput()) continue; receive(); }       (polling)
+//   2  while (connected()) { if (!hasInput()) continue; receive(); }     (polling)
+//   3  while (!closed()) { if (!wait(0.3 ms)) continue; receive(); }     (short waits that expire between messages)
+//   4  while (true) { if (!waitData(0.3 ms)) { if (closed()) stop; continue; } receive(); }
+static const int N_STYLES = 5;
+static const char* STYLE_NAME[N_STYLES] = {"blocking_wait", "poll_closed_hasInput", "poll_connected_hasInput", "short_wait", "short_waitData"};
+static int clamp_style(long long v) { return (int)(((v % N_STYLES) + N_STYLES) % N_STYLES); }
+
+static bool next_msg(WebSocket& ws, std::string& out, int& empties, std::string& why, Watch* w = 0, int me = 0, int style = 0)
 {
 	for (int spins = 0; spins < 1000000; spins++) {
-		if (ws.closed()) {
+		if (style != 0) {
+			double t0 = vf::now();
+			unsigned long n = 0;
+			for (;;) {
+				bool in;
+				if (style == 4) {
+					in = ws.waitData(0.0003);
+					if (!in && ws.closed()) {
+						why = vf::str("connection reported closed while a message was expected (receiver style ", STYLE_NAME[style], ")");
+						return false;
+					}
+				}
+				else {
+					if (style == 2 ? !ws.connected() : ws.closed()) {
+						why = vf::str("connection reported closed while a message was expected (receiver style ", STYLE_NAME[style], ")");
+						return false;
+					}
+					in = style == 3 ? ws.wait(0.0003) : ws.hasInput();
+				}
+				if (in)
+					break;
+				if ((++n & 63) == 0)
+					sched_yield(); // a polling loop must not starve the peer thread on a loaded machine
+				if ((n & 1023) == 0 && vf::now() - t0 > HANG_S) {
+					why = vf::str("no input within ", HANG_S, " s while a message was expected");
+					return false;
+				}
+			}
+		}
+		else if (ws.closed()) {
 			why = "connection closed while a message was expected";
 			return false;
 		}
-		if (!w) {
+		if (style != 0) {}
+		else if (!w) {
 			if (!ws.wait(HANG_S)) {
 				why = vf::str("no input within ", HANG_S, " s while a message was expected");
 				return false;
@@ -263,6 +303,57 @@ static void do_send(WebSocket& ws, int type, const std::string& p, int api)
 // ---------------------------------------------------------------------------------------------------------------
 // Part A: library <-> library
 
+// Persistent helper threads (creating a thread per case is far too expensive under ASan): one writes the peer's stream,
+// one drains what the WebSocket writes back.
+struct Helper {
+	std::mutex mu;
+	std::condition_variable cv;
+	std::function<void()> job;
+	bool busy = false;
+	Helper()
+	{
+		std::thread([this] {
+			block_alarm_in_this_thread();
+			for (;;) {
+				std::function<void()> j;
+				{
+					std::unique_lock<std::mutex> l(mu);
+					cv.wait(l, [&] { return (bool)job; });
+					j.swap(job);
+				}
+				j();
+				{
+					std::lock_guard<std::mutex> l(mu);
+					busy = false;
+				}
+				cv.notify_all();
+			}
+		}).detach();
+	}
+	void start(std::function<void()> j)
+	{
+		std::lock_guard<std::mutex> l(mu);
+		job = std::move(j);
+		busy = true;
+		cv.notify_all();
+	}
+	void wait()
+	{
+		std::unique_lock<std::mutex> l(mu);
+		cv.wait(l, [&] { return !busy; });
+	}
+};
+static Helper& writer()
+{
+	static Helper* h = new Helper;
+	return *h;
+}
+static Helper& drainer()
+{
+	static Helper* h = new Helper;
+	return *h;
+}
+
 struct Step {
 	int dir; // 0 client->server, 1 server->client, 2 client->server and echoed back by the server
 	int type;
@@ -270,7 +361,14 @@ struct Step {
 	uint64_t seed;
 	int api;
 	long delay_ms = 0, timer_us = 0; // client->server only: the server starts reading late, a timer fires in the sending thread
+	long pause_us = 0;               // the sender pauses before this message (lets short receiver timeouts expire)
+	// dir 3 = full duplex: the client streams `count` messages (len, seed) while the server streams `count2` (len2, seed2),
+	// each end with one sending and one receiving thread on the same WebSocket object
+	long long len2 = 0;
+	uint64_t seed2 = 0;
+	int count = 0, count2 = 0;
 };
+static long long dx_len(long long len, int i) { return std::max(1LL, len + (i * 7) % 11 - 5); }
 
 struct Script {
 	std::vector<Step> steps;
@@ -279,6 +377,7 @@ struct Script {
 	bool done = false;
 	std::string err;
 	int empties = 0;
+	int sstyle = 0; // how the server end waits for messages
 	Watch watch;
 	void finish(const std::string& e)
 	{
@@ -295,18 +394,74 @@ static std::mutex g_mu;
 static std::map<uint64_t, std::shared_ptr<Script>> g_scripts;
 static uint64_t g_next_id = 1;
 
+static void pause_us(long us)
+{
+	if (us > 0)
+		usleep((useconds_t)us);
+}
+
+// Full duplex step, run by both ends (me: 0 client, 1 server): a helper thread sends this end's stream while the calling
+// thread receives the peer's, on the same WebSocket object.  The client's stream ends with a marker; the server sends
+// its marker only after it has received the client's, so nobody closes while anything is in flight.
+static std::string duplex_step(WebSocket& ws, const Step& st, int me, int style, int& empties)
+{
+	long long mylen = me ? st.len2 : st.len, peerlen = me ? st.len : st.len2;
+	uint64_t myseed = me ? st.seed2 : st.seed, peerseed = me ? st.seed : st.seed2;
+	int mycount = me ? st.count2 : st.count, peercount = me ? st.count : st.count2;
+	std::atomic<bool> recv_done(false);
+	Helper& h = me ? drainer() : writer();
+	h.wait();
+	h.start([&ws, &st, &recv_done, mylen, myseed, mycount, me] {
+		for (int i = 0; i < mycount; i++)
+			do_send(ws, st.type, gen_payload(st.type, dx_len(mylen, i), myseed + (uint64_t)i), st.api + i);
+		if (me) {
+			double t0 = vf::now();
+			while (!recv_done && vf::now() - t0 < HANG_S)
+				usleep(200);
+		}
+		ws.send("D");
+	});
+	std::string err, got, why;
+	const char* who = me ? "server" : "client";
+	for (int i = 0; i < peercount && err.empty(); i++) {
+		if (!next_msg(ws, got, empties, why, 0, me, style))
+			err = vf::str(who, ", full duplex: message ", i, " of ", peercount, " from the peer: ", why);
+		else {
+			std::string want = gen_payload(st.type, dx_len(peerlen, i), peerseed + (uint64_t)i);
+			if (got != want)
+				err = vf::str(who, ", full duplex: message ", i, " of ", peercount, " from the peer differs: ", diff(got, want));
+		}
+	}
+	if (err.empty()) {
+		if (!next_msg(ws, got, empties, why, 0, me, style))
+			err = vf::str(who, ", full duplex: end marker after ", peercount, " messages: ", why);
+		else if (got != "D")
+			err = vf::str(who, ", full duplex: an extra message (", got.size(), " bytes) arrived after the peer's ", peercount, " messages");
+	}
+	recv_done = true;
+	h.wait();
+	return err;
+}
+
 static std::string server_script(WebSocket& ws, Script& sc)
 {
 	std::string got, why;
 	for (size_t i = 0; i < sc.steps.size(); i++) {
 		const Step& st = sc.steps[i];
+		if (st.dir == 3) {
+			std::string e = duplex_step(ws, st, 1, sc.sstyle, sc.empties);
+			if (!e.empty())
+				return vf::str("step ", i, ": ", e);
+			continue;
+		}
 		if (st.dir == 1) {
+			pause_us(st.pause_us);
 			do_send(ws, st.type, gen_payload(st.type, st.len, st.seed), st.api);
 			continue;
 		}
 		if (st.delay_ms > 0)
 			usleep((useconds_t)st.delay_ms * 1000); // the client fills the socket buffers and blocks in send() meanwhile
-		if (!next_msg(ws, got, sc.empties, why, &sc.watch, 1))
+		if (!next_msg(ws, got, sc.empties, why, &sc.watch, 1, sc.sstyle))
 			return vf::str("server, step ", i, " (len ", st.len, "): ", why);
 		std::string want = gen_payload(st.type, st.len, st.seed);
 		if (got != want)
@@ -314,7 +469,7 @@ static std::string server_script(WebSocket& ws, Script& sc)
 		if (st.dir == 2)
 			do_send(ws, st.type, got, st.api + 1);
 	}
-	if (!next_msg(ws, got, sc.empties, why, &sc.watch, 1))
+	if (!next_msg(ws, got, sc.empties, why, &sc.watch, 1, sc.sstyle))
 		return "server, end marker: " + why;
 	if (got != "F")
 		return vf::str("server: an extra message arrived after the last scripted one (", got.size(), " bytes) instead of the end marker");
@@ -331,7 +486,9 @@ struct Srv : public WebSocketServer {
 		int emp = 0;
 		if (!next_msg(ws, ctl, emp, why))
 			return;
-		if (ctl == "E") { // echo service for the raw (reference codec) client
+		if (ctl == "H") // echo service that is busy for a moment first (the half-closing client has sent everything by then)
+			usleep(15000);
+		if (ctl == "E" || ctl == "H") { // echo service for the raw (reference codec) client
 			std::string m;
 			while (next_msg(ws, m, emp, why))
 				ws.send((const byte*)m.data(), (int)m.size(), WebSocket::FRAME_BINARY);
@@ -404,12 +561,14 @@ static long long clamp_len(long long v, long long maxv)
 
 static const long long MAX_LEN = 8ll << 20;
 
-// ops:  conn via            (0 WebSocketServer directly, 1 through HttpServer::link).  The first one opens the first
+// ops:  conn via cstyle sstyle   (via: 0 WebSocketServer directly, 1 through HttpServer::link; c/sstyle: how the client / the
+//                           server end waits for its messages, see next_msg).  The first one opens the first
 //                           session; every later one (after at least one message) close()s the client WebSocket and
 //                           connect()s THE SAME OBJECT again for the following messages (object reuse).
 //       m dir type len seed api [delay_ms timer_us]     (the last two for dir 0 only, see TimerScope)
 struct Session {
 	int via = 0;
+	int cstyle = 0, sstyle_ = 0; // how the client / the server end waits for messages
 	std::shared_ptr<Script> sc;
 	uint64_t id = 0;
 };
@@ -438,8 +597,15 @@ static std::string loop_session(WebSocket& ws, Session& se, int round, int& empt
 		std::string got, why;
 		for (size_t i = 0; i < sc->steps.size() && cerr_.empty(); i++) {
 			const Step& st = sc->steps[i];
+			if (st.dir == 3) {
+				std::string e = duplex_step(ws, st, 0, se.cstyle, empties);
+				if (!e.empty())
+					cerr_ = vf::str("step ", i, ": ", e);
+				continue;
+			}
 			std::string want = gen_payload(st.type, st.len, st.seed);
 			if (st.dir != 1) {
+				pause_us(st.pause_us);
 				int cfd = Peek::sock(ws).handle();
 				if (st.timer_us > 0) { // small fixed send buffer (no autotuning): the send really has to wait for the late reader
 					int sb = 32768;
@@ -449,7 +615,7 @@ static std::string loop_session(WebSocket& ws, Session& se, int round, int& empt
 				do_send(ws, st.type, want, st.api);
 			}
 			if (st.dir != 0) {
-				if (!next_msg(ws, got, empties, why, w, 0))
+				if (!next_msg(ws, got, empties, why, w, 0, se.cstyle))
 					cerr_ = vf::str("client, step ", i, " (len ", st.len, "): ", why);
 				else if (got != want)
 					cerr_ = vf::str("client, step ", i, ": message from the server differs: ", diff(got, want));
@@ -457,7 +623,7 @@ static std::string loop_session(WebSocket& ws, Session& se, int round, int& empt
 		}
 		if (cerr_.empty()) {
 			ws.send("F");
-			if (!next_msg(ws, got, empties, why, w, 0))
+			if (!next_msg(ws, got, empties, why, w, 0, se.cstyle))
 				cerr_ = "client, end marker: " + why;
 			else if (got != "F")
 				cerr_ = vf::str("client: an extra message arrived after the last scripted one (", got.size(), " bytes) instead of the end marker");
@@ -484,21 +650,57 @@ static std::string loop_session(WebSocket& ws, Session& se, int round, int& empt
 static std::vector<Session> loop_sessions(const vf::Case& c)
 {
 	std::vector<Session> ss;
-	int via = 0;
+	int via = 0, cstyle = 0, sstyle = 0;
 	bool fresh = true; // the next message starts a new session
+	auto session = [&]() {
+		if (fresh || ss.empty()) {
+			Session se;
+			se.via = via;
+			se.cstyle = cstyle;
+			se.sstyle_ = sstyle;
+			se.sc = std::make_shared<Script>();
+			se.sc->sstyle = sstyle;
+			ss.push_back(se);
+			fresh = false;
+		}
+	};
 	for (auto& o : c.ops) {
 		if (o.name == "conn") {
 			via = (int)(o.i(0) & 1);
+			cstyle = clamp_style(o.i(1));
+			sstyle = clamp_style(o.i(2));
 			fresh = true;
 		}
-		else if (o.name == "m") {
-			if (fresh || ss.empty()) {
-				Session se;
-				se.via = via;
-				se.sc = std::make_shared<Script>();
-				ss.push_back(se);
-				fresh = false;
+		else if (o.name == "mm") { // burst: count messages dir type len(+-5) seed.. api, the sender pausing pause_us before each
+			session();
+			int count = (int)std::min<long long>(std::max<long long>(o.i(5), 1), 5000);
+			for (int i = 0; i < count; i++) {
+				Step st;
+				st.dir = (int)(((o.i(0) % 3) + 3) % 3);
+				st.type = (int)(o.i(1) & 1);
+				st.len = dx_len(clamp_len(o.i(2), 70000), i);
+				st.seed = (uint64_t)o.i(3) + (uint64_t)i;
+				st.api = (int)((o.i(4) + i) & 0xff);
+				st.pause_us = (long)std::min<long long>(std::max<long long>(o.i(6), 0), 20000);
+				ss.back().sc->steps.push_back(st);
 			}
+		}
+		else if (o.name == "dx") { // full duplex: type api len seed count len2 seed2 count2
+			session();
+			Step st;
+			st.dir = 3;
+			st.type = (int)(o.i(0) & 1);
+			st.api = (int)(o.i(1) & 0xff);
+			st.len = clamp_len(o.i(2), 70000);
+			st.seed = (uint64_t)o.i(3);
+			st.count = (int)std::min<long long>(std::max<long long>(o.i(4), 0), 20000);
+			st.len2 = clamp_len(o.i(5), 70000);
+			st.seed2 = (uint64_t)o.i(6);
+			st.count2 = (int)std::min<long long>(std::max<long long>(o.i(7), 0), 20000);
+			ss.back().sc->steps.push_back(st);
+		}
+		else if (o.name == "m") {
+			session();
 			Step st;
 			st.dir = (int)(((o.i(0) % 3) + 3) % 3);
 			st.type = (int)(o.i(1) & 1);
@@ -545,57 +747,6 @@ static void run_loop(const vf::Case& c)
 
 // ---------------------------------------------------------------------------------------------------------------
 // Part B (inbound): frames built by the reference codec -> one end of a socketpair -> WebSocket::receive()
-
-// Persistent helper threads (creating a thread per case is far too expensive under ASan): one writes the peer's stream,
-// one drains what the WebSocket writes back.
-struct Helper {
-	std::mutex mu;
-	std::condition_variable cv;
-	std::function<void()> job;
-	bool busy = false;
-	Helper()
-	{
-		std::thread([this] {
-			block_alarm_in_this_thread();
-			for (;;) {
-				std::function<void()> j;
-				{
-					std::unique_lock<std::mutex> l(mu);
-					cv.wait(l, [&] { return (bool)job; });
-					j.swap(job);
-				}
-				j();
-				{
-					std::lock_guard<std::mutex> l(mu);
-					busy = false;
-				}
-				cv.notify_all();
-			}
-		}).detach();
-	}
-	void start(std::function<void()> j)
-	{
-		std::lock_guard<std::mutex> l(mu);
-		job = std::move(j);
-		busy = true;
-		cv.notify_all();
-	}
-	void wait()
-	{
-		std::unique_lock<std::mutex> l(mu);
-		cv.wait(l, [&] { return !busy; });
-	}
-};
-static Helper& writer()
-{
-	static Helper* h = new Helper;
-	return *h;
-}
-static Helper& drainer()
-{
-	static Helper* h = new Helper;
-	return *h;
-}
 
 // Owns the harness's end of a socketpair (the WebSocket owns and closes the other one).  Destroyed after the
 // WebSocket: by then the peer end is closed, so both helpers finish (EPIPE / EOF) and can be waited for.
@@ -1067,6 +1218,7 @@ static std::string name_case(const std::string& n, int mode)
 
 // ops:  hs via namecase connvar upvar extras order | key16
 //       m len seed masked key        (echoed by the server after the handshake)
+//       hc 1                         (half close: all m are sent at once, then shutdown(SHUT_WR), then the echoes are read)
 static void run_hs_(const vf::Case& c)
 {
 	Servers& sv = servers();
@@ -1080,6 +1232,7 @@ static void run_hs_(const vf::Case& c)
 		long long key;
 	};
 	std::vector<M> msgs;
+	bool halfclose = false;
 	for (auto& o : c.ops) {
 		if (o.name == "hs") {
 			via = (int)(o.i(0) & 1);
@@ -1092,6 +1245,14 @@ static void run_hs_(const vf::Case& c)
 		}
 		else if (o.name == "m")
 			msgs.push_back(M{clamp_len(o.i(0), 200000), (uint64_t)o.i(1), true, o.i(3)});
+		else if (o.name == "hc")
+			halfclose = (o.i(0) & 1) != 0;
+	}
+	if (halfclose) { // everything is written before anything is read: keep it below the socket buffers
+		if (msgs.size() > 40)
+			msgs.resize(40);
+		for (auto& m : msgs)
+			m.len = std::min<long long>(m.len, 2000);
 	}
 	key.resize(16, 'k');
 	std::string key64 = ref::base64(key);
@@ -1168,8 +1329,40 @@ static void run_hs_(const vf::Case& c)
 	f.opcode = 2;
 	f.masked = true;
 	f.key[0] = 9, f.key[1] = 0, f.key[2] = 7, f.key[3] = 1;
-	f.payload = "E";
+	f.payload = halfclose ? "H" : "E";
 	VF_CHECK(raw_write(s.fd, ref::ws_encode(f)), "cannot send");
+	if (halfclose) {
+		// the peer sends all its requests, closes its sending direction (TCP half close) and then reads the replies:
+		// every reply the application sent must arrive
+		std::string all;
+		for (size_t i = 0; i < msgs.size(); i++) {
+			f.payload = gen_payload(1, msgs[i].len, msgs[i].seed);
+			key_bytes(msgs[i].key, (int)i, f.key);
+			all += ref::ws_encode(f);
+		}
+		VF_CHECK(raw_write(s.fd, all), "cannot send the requests");
+		shutdown(s.fd, SHUT_WR);
+		size_t got = 0;
+		for (;; got++) {
+			ref::WsFrame r;
+			size_t pos = 0;
+			bool eof = false;
+			while (ref::ws_decode(buf, pos, r) != ref::WS_OK)
+				if (!raw_more(s.fd, buf)) {
+					eof = true;
+					break;
+				}
+			if (eof)
+				break;
+			buf.erase(0, pos);
+			VF_CHECK(got < msgs.size(), "an extra frame (", r.payload.size(), " bytes, opcode ", r.opcode, ") after the ", msgs.size(), " replies");
+			std::string pl = gen_payload(1, msgs[got].len, msgs[got].seed);
+			VF_CHECK(r.fin && r.opcode == 2 && !r.masked && r.minimal, "reply frame ", got, ": FIN ", r.fin, " opcode ", r.opcode, " masked ", r.masked, " minimal ", r.minimal);
+			VF_CHECK(r.payload == pl, "reply ", got, " of ", msgs.size(), ": ", diff(r.payload, pl));
+		}
+		VF_CHECK(got == msgs.size(), "the peer sent ", msgs.size(), " requests, half-closed and then read: only ", got, " replies arrived before the connection ended", via ? " (through HttpServer::link)" : "");
+		return;
+	}
 	for (size_t i = 0; i < msgs.size(); i++) {
 		std::string pl = gen_payload(1, msgs[i].len, msgs[i].seed);
 		f.payload = pl;
@@ -1428,6 +1621,23 @@ static void classify_reuse(const vf::Case& c)
 	}
 }
 
+// receive styles of the two ends and full duplex steps
+static void classify_styles(const vf::Case& c)
+{
+	auto& st = vf::stats();
+	for (auto& se : loop_sessions(c)) {
+		st.cls(std::string("loop.style.client_") + STYLE_NAME[se.cstyle]);
+		st.cls(std::string("loop.style.server_") + STYLE_NAME[se.sstyle_]);
+		if (se.cstyle || se.sstyle_)
+			st.cls("loop.style.messages_in_nondefault_sessions", se.sc->steps.size());
+		for (auto& m : se.sc->steps)
+			if (m.dir == 3) {
+				st.cls("loop.duplex_steps");
+				st.cls("loop.duplex_messages", (uint64_t)(m.count + m.count2));
+			}
+	}
+}
+
 static const unsigned long long HOSTILE_LENGTHS[][2] = {
     // {form, declared}
     {0, 0}, {0, 1}, {0, 5}, {0, 125},
@@ -1511,10 +1721,13 @@ void vf_search(const vf::Args& a)
 		                    [](const std::tuple<int, int, int, int, int>& t) {
 			                    return vf::Op("m", {std::get<0>(t), std::get<1>(t), std::get<2>(t), std::get<3>(t), std::get<4>(t)});
 		                    });
-		auto cop = gen::map(vf::irange<int>(0, 1), [](int v) { return vf::Op("conn", {v}); }); // close() + connect() on the same object
-		auto g = gen::map(gen::pair(vf::irange<int>(0, 1), gen::nonEmpty(gen::container<std::vector<vf::Op>>(gen::weightedOneOf<vf::Op>({{8, mop}, {1, cop}})))), [](const std::pair<int, std::vector<vf::Op>>& p) {
+		auto style = gen::weightedElement<int>({{6, 0}, {1, 1}, {1, 2}, {1, 3}, {1, 4}});
+		auto cop = gen::map(gen::tuple(vf::irange<int>(0, 1), style, style), [](const std::tuple<int, int, int>& v) {
+			return vf::Op("conn", {std::get<0>(v), std::get<1>(v), std::get<2>(v)}); // close() + connect() on the same object
+		});
+		auto g = gen::map(gen::pair(cop, gen::nonEmpty(gen::container<std::vector<vf::Op>>(gen::weightedOneOf<vf::Op>({{8, mop}, {1, cop}})))), [](const std::pair<vf::Op, std::vector<vf::Op>>& p) {
 			vf::Case c;
-			c.add(vf::Op("conn", {p.first}));
+			c.add(p.first);
 			for (size_t i = 0; i < p.second.size() && i < 20; i++)
 				c.add(p.second[i]);
 			return c;
@@ -1522,6 +1735,7 @@ void vf_search(const vf::Args& a)
 		vf::check_cases("loop", a.n(1000, 12000), 20, g, [&](const vf::Case& c) {
 			bool nt = false;
 			classify_reuse(c);
+			classify_styles(c);
 			for (auto& o : c.ops)
 				if (o.name == "m") {
 					if (near_boundary(o.i(2)))
@@ -1607,6 +1821,47 @@ void vf_search(const vf::Args& a)
 				st.sample("loop (reused object): " + vf::serialize(c));
 		}
 		st.part("loop.reused_client_object", cases, false);
+	};
+	// ---- A5: receive/send styles of the endpoints: polling receivers (closed()/connected() + hasInput()), short wait()
+	//          and waitData() timeouts that expire between messages, with the sender pacing itself on the echo (every
+	//          frame lands on an empty queue) and streaming; full duplex with a sending and a receiving thread per end
+	auto sec_A5 = [&]() {
+		long reps = a.n(3, 10);
+		uint64_t cases = 0;
+		ref::SplitMix r(a.seed * 2750159 + (uint64_t)a.worker * 101 + 3);
+		auto S = [&]() { return (long long)r.below(1 << 30); };
+		for (long rep = 0; rep < reps; rep++) {
+			std::vector<vf::Case> cs;
+			static const int PAIRS[][2] = {{1, 1}, {2, 0}, {0, 1}, {1, 3}, {3, 2}, {4, 4}, {2, 2}, {0, 4}, {3, 0}};
+			for (auto& pr : PAIRS) {
+				vf::Case c;
+				c.add(vf::Op("conn", {(long long)r.below(2), pr[0], pr[1]}));
+				c.add(vf::Op("mm", {2, (long long)r.below(2), 1 + (long long)r.below(140), S(), 0, 250, 0}));                 // paced on the echo
+				c.add(vf::Op("mm", {0, (long long)r.below(2), 100 + (long long)r.below(60), S(), 0, 120, 0}));              // streaming
+				c.add(vf::Op("mm", {1, (long long)r.below(2), 100 + (long long)r.below(60), S(), 0, 120, 0}));
+				c.add(vf::Op("mm", {(long long)r.below(3), 1, 20, S(), 0, 25, 700 + (long long)r.below(1500)}));           // gaps longer than the short timeouts
+				c.add(vf::Op("m", {2, 1, 65536 + (long long)r.below(10), S(), 0}));
+				cs.push_back(c);
+			}
+			for (int d = 0; d < 3; d++) { // full duplex, independent streams both ways
+				vf::Case c;
+				c.add(vf::Op("conn", {(long long)r.below(2), d == 2 ? 1 : 0, d == 1 ? 3 : 0}));
+				c.add(vf::Op("m", {2, 1, 5, S(), 0}));
+				c.add(vf::Op("dx", {(long long)r.below(2), (long long)r.below(3), 1 + (long long)r.below(200), S(), 1500 + (long long)r.below(1500), 1 + (long long)r.below(200), S(), 1500 + (long long)r.below(1500)}));
+				c.add(vf::Op("m", {2, 0, 126, S(), 1}));
+				cs.push_back(c);
+			}
+			for (auto& c : cs) {
+				if (!run1("loop", c))
+					return;
+				cases++;
+				st.nt(vf::fnv(vf::serialize(c)));
+				classify_styles(c);
+			}
+			if (rep == 0 && a.worker == 0)
+				st.sample("loop (polling receivers): " + vf::serialize(cs[0]));
+		}
+		st.part("loop.receive_styles_and_full_duplex", cases, false);
 	};
 	// ---- B-in 1: every length, single frame and 2..4 fragments, both roles, masked and not
 	[&]() {
@@ -1774,6 +2029,23 @@ void vf_search(const vf::Args& a)
 					st.nt(vf::fnv(vf::serialize(c)));
 				}
 		st.part("hs.grid(server path x 12 Connection values x 3 Upgrade values)", grid, false);
+		for (int via = 0; via < 2; via++)
+			for (int n : {1, 2, 6, 25}) {
+				if ((int)((idx++) % (uint64_t)a.workers) != a.worker)
+					continue;
+				vf::Case c;
+				vf::Op o("hs", {via, 0, (long long)rng.below(6), 0, (long long)rng.below(128), (long long)rng.below(1000)});
+				o.s.push_back(rng.bytes(16));
+				c.add(o);
+				c.add(vf::Op("hc", {1}));
+				for (int i = 0; i < n; i++)
+					c.add(vf::Op("m", {(long long)(i % 3 == 0 ? 126 + i : 1 + rng.below(300)), (long long)rng.below(1 << 30), 1, (long long)(rng.next() & 0xffffffff)}));
+				if (!run1("hs", c))
+					return;
+				st.nt(vf::fnv(vf::serialize(c)));
+				st.cls("hs.halfclose_cases");
+				st.cls("hs.halfclose_requests", (uint64_t)n);
+			}
 		auto g = gen::map(gen::tuple(vf::irange<int>(0, 1), gen::weightedElement<int>({{3, 0}, {1, 1}, {1, 2}, {1, 3}}), vf::bytes_n(16, 0, 255), gen_len(70000), vf::irange<int>(0, 1 << 30), gen_key(),
 		                             gen::weightedOneOf<int>({{5, vf::irange<int>(0, 5)}, {1, vf::irange<int>(6, N_HS_CONNECTION - 1)}}), gen::weightedElement<int>({{8, 0}, {1, 1}, {1, 2}}),
 		                             gen::weightedOneOf<int>({{1, gen::just(0)}, {2, vf::irange<int>(0, 127)}}), gen::weightedOneOf<int>({{1, gen::just(0)}, {2, vf::irange<int>(1, 100000)}})),
@@ -1782,12 +2054,24 @@ void vf_search(const vf::Args& a)
 			                  vf::Op o("hs", {std::get<0>(t), std::get<1>(t), std::get<6>(t), std::get<7>(t), std::get<8>(t), std::get<9>(t)});
 			                  o.s.push_back(std::get<2>(t));
 			                  c.add(o);
-			                  c.add(vf::Op("m", {std::get<3>(t), std::get<4>(t), 1, std::get<5>(t)}));
+			                  int seed = std::get<4>(t);
+			                  if (seed % 8 == 0) { // an eighth of the cases: 1-8 requests, half close, then read the replies
+				                  c.add(vf::Op("hc", {1}));
+				                  int n = 1 + (seed / 8) % 8;
+				                  for (int i = 0; i < n; i++)
+					                  c.add(vf::Op("m", {1 + (std::get<3>(t) + 37 * i) % 2000, seed + i, 1, std::get<5>(t) + i}));
+			                  }
+			                  else
+				                  c.add(vf::Op("m", {std::get<3>(t), seed, 1, std::get<5>(t)}));
 			                  return c;
 		                  });
 		int k = 0;
 		vf::check_cases("hs", a.n(1000, 10000), 100, g, [&](const vf::Case& c) {
 			const vf::Op& o = c.ops[0];
+			if (c.ops.size() > 1 && c.ops[1].name == "hc") {
+				st.cls("hs.halfclose_cases");
+				st.cls("hs.halfclose_requests", c.ops.size() - 2);
+			}
 			st.nt(vf::fnv(vf::serialize(c)));
 			st.cls(o.i(0) ? "hs.via_httpserver_link" : "hs.via_websocketserver");
 			st.cls(o.i(1) == 0 ? "hs.header_names_canonical" : o.i(1) == 1 ? "hs.header_names_lower" : o.i(1) == 2 ? "hs.header_names_upper" : "hs.header_names_mixed");
@@ -1904,6 +2188,8 @@ void vf_search(const vf::Args& a)
 		sec_A3();
 		sec_A4();
 		lap("loop");
+		sec_A5();
+		lap("styles");
 	}
 	else
 		st.cls("tcp_parts_skipped_after_failure");
